@@ -44,19 +44,8 @@ def memStep (m : Mem) : Op → Mem
   | .unreg i =>
     if m.shut || m.mult i == 0 then m      -- unregistering one that is not registered changes nothing
     else { m with mult := upd m.mult i (· - 1), tot := m.tot - 1 }
-  | .shutdown _ => { mult := fun _ => 0, tot := 0, shut := true }
+  | .shutdown _ _ => { mult := fun _ => 0, tot := 0, shut := true }
   | _ => m
-
-/-- F26: the first Shutdown call gets an already-done context while processors are registered -/
-def f26From (m : Mem) : List Op → Bool
-  | [] => false
-  | op :: r =>
-    (match op with
-     | .shutdown c => !m.shut && c.done && m.tot != 0
-     | _ => false) || f26From (memStep m op) r
-
-def F26_applies (ops : List Op) : Prop := f26From {} ops = true
-instance (ops : List Op) : Decidable (F26_applies ops) := inferInstanceAs (Decidable (_ = true))
 
 structure Ref where
   mem : Mem := {}
@@ -64,6 +53,8 @@ structure Ref where
   spans : Nat → Slot := fun _ => .empty
   dead : Nat → Bool := fun _ => false           -- processor i must have been shut down
   deliv : Nat → Nat := fun _ => 0               -- spans delivered to stock processor i while it was alive
+  raced : Nat → Bool := fun _ => false          -- i was taken out of service by a provider Shutdown whose context was
+                                                -- done: the asynchronous rest of its shutdown may still be outstanding
 
 /-- does this op deliver OnStart / OnEnd of an SDK span? -/
 def delivers (r : Ref) : Op → Bool × Bool
@@ -76,7 +67,7 @@ def delivers (r : Ref) : Op → Bool × Bool
 def kills (r : Ref) (op : Op) (i : Nat) : Bool :=
   match op with
   | .unreg j => j == i && !r.mem.shut && r.mem.mult i != 0
-  | .shutdown _ => r.mem.mult i != 0
+  | .shutdown _ _ => r.mem.mult i != 0
   | .pshut j => j == i
   | _ => false
 
@@ -84,7 +75,7 @@ def kills (r : Ref) (op : Op) (i : Nat) : Bool :=
 def shutCalls (r : Ref) (op : Op) (i : Nat) : Nat :=
   match op with
   | .unreg j => if j == i && !r.mem.shut && r.mem.mult i != 0 then 1 else 0
-  | .shutdown _ => r.mem.mult i
+  | .shutdown _ _ => r.mem.mult i
   | .pshut j => if j == i then 1 else 0
   | _ => 0
 
@@ -97,6 +88,12 @@ def flushCalls (r : Ref) (op : Op) (i : Nat) : Nat :=
 def drains (r : Ref) (op : Op) (i : Nat) : Bool :=
   kills r op i || (match op with | .flush c => !c.done && r.mem.mult i != 0 | _ => false)
 
+/-- processor i is shut down by this call with a done context while it was still alive -/
+def racedNow (r : Ref) (op : Op) (i : Nat) : Bool :=
+  match op with
+  | .shutdown c _ => c.done && r.mem.mult i != 0 && !r.dead i
+  | _ => false
+
 def refStep (r : Ref) (op : Op) (res : Res) : Ref :=
   let d := delivers r op
   { mem := memStep r.mem op
@@ -106,16 +103,25 @@ def refStep (r : Ref) (op : Op) (res : Res) : Ref :=
       | .end_ j => (match r.spans j with | .live _ => setAt r.spans j .ended | _ => r.spans)
       | _ => r.spans
     dead := fun i => r.dead i || kills r op i
-    deliv := fun i => r.deliv i + (if d.2 && !r.dead i then r.mem.mult i else 0) }
+    deliv := fun i => r.deliv i + (if d.2 && !r.dead i then r.mem.mult i else 0)
+    raced := fun i => r.raced i || racedNow r op i }
 
 def resOK (r : Ref) (op : Op) (res : Res) : Bool :=
   match op with
   | .tracer _ => res == (if r.mem.shut then .noop else .sdk)
   | .flush c => res == (if r.mem.tot == 0 || !c.done then .ok else c.err)
-  | .shutdown c =>
+  | .shutdown c _ =>
     if r.mem.shut || r.mem.tot == 0 || !c.done then res == .ok else (res == .ok || res == c.err)
   | .pshut _ => res == .ok
   | _ => res == .none
+
+/-- exporter Shutdown count of a stock processor: exactly one iff the processor has been taken out of service —
+except that a processor shut down by a provider Shutdown with a done context (`raced`) may still owe it: then at
+most one, possibly already at the return of that call, and no later API call moves it (late arrival: Lag.lean) -/
+def stockShutOK (r r' : Ref) (op : Op) (i : Nat) (prev cur : Cnt) : Bool :=
+  if r.raced i then cur.s == prev.s && cur.s ≤ 1
+  else if racedNow r op i then cur.s ≤ 1
+  else cur.s == (if r'.dead i then 1 else 0)
 
 /-- one step judged: `prev`/`cur` are the counters before and after the step -/
 def checkStep (kinds : List PKind) (r : Ref) (op : Op) (prev cur : Nat → Cnt) (res : Res) : Fails :=
@@ -127,12 +133,17 @@ def checkStep (kinds : List PKind) (r : Ref) (op : Op) (prev cur : Nat → Cnt) 
         | .recd => (cur i).a == (prev i).a + (if d.1 then r.mem.mult i else 0) &&
                    (cur i).e == (prev i).e + (if d.2 then r.mem.mult i else 0) && (cur i).n == 0
         | .simpleRec => (cur i).n == r'.deliv i
-        | .batchRec => (cur i).n == (if drains r op i then r'.deliv i else (prev i).n) && (cur i).n ≤ r'.deliv i
+        | .batchRec =>
+          -- exports only at drain points (all of it); a Shutdown with a done context exports some of it by the
+          -- time it returns and no later API call exports the rest (late arrival: Lag.lean)
+          (if r.raced i then (cur i).n == (prev i).n
+           else if racedNow r op i then (prev i).n ≤ (cur i).n
+           else (cur i).n == (if drains r op i then r'.deliv i else (prev i).n)) && (cur i).n ≤ r'.deliv i
         | _ => (cur i).n == 0)
     o := !(allBelow n fun i =>
         match kindOf kinds i with
         | .recd => (cur i).s == (prev i).s + shutCalls r op i
-        | .simpleRec | .batchRec => (cur i).s == (if r'.dead i then 1 else 0)
+        | .simpleRec | .batchRec => stockShutOK r r' op i (prev i) (cur i)
         | _ => (cur i).s == 0)
     a := !(resOK r op res && allBelow n fun i =>
         match kindOf kinds i with
